@@ -164,3 +164,104 @@ contract(C + 'TileCreator._create_single_tile', props=['C08', 'C13'],
              T.only_under_lock('store_tile', text='tiles are stored while the lock is held'),
              _single_lock_on_tile, _fetch_only_if_recheck_failed, _failed_refresh_keeps_old_tile, _single_store_under_lock,
          ])
+
+
+# ---- what is asked upstream and what is handed back (added after the mutation audit: argument order and the cached path) ----
+def _meta_request_and_result(ex, st, post, result):
+    import z3
+    from pyvc.values import eq, VSeq
+    mt = post.env['meta_tile']
+    h = st.heap[mt.ref]
+    self_h = st.heap[post.env['self'].ref]
+    mq = [e for i, e in T.evs(st, 'MapQuery')]
+    qs = [e for i, e in T.evs(st, '_query_sources')]
+    sp = [e for i, e in T.evs(st, 'split_meta_tiles')]
+    ld = [e for i, e in T.evs(st, 'load_tiles')]
+    goal = z3.BoolVal(len(mq) == 1)
+    if mq:
+        grid = st.heap[self_h['grid'].ref]
+        goal = z3.And(goal, eq(mq[0].args[0], h['bbox']), eq(mq[0].args[1], h['size']), eq(mq[0].args[2], grid['srs']))
+    for e in qs:
+        goal = z3.And(goal, z3.BoolVal(bool(mq) and e.args[-1] is mq[0].result))
+    for e in sp:
+        ok = len(qs) == 1 and len(e.args) == 4 and (e.args[0] is qs[0].result or getattr(qs[0].result, 'val', None) is e.args[0])
+        goal = z3.And(goal, z3.BoolVal(bool(ok)))
+        if ok:
+            goal = z3.And(goal, eq(e.args[1], h['tile_patterns']), eq(e.args[2], st.heap[self_h['grid'].ref]['tile_size']))
+    yield ('upstream_query_is_the_meta_tile', goal,
+           'the one upstream query is MapQuery(meta_tile.bbox, meta_tile.size, grid.srs, ..); the answer is split with '
+           'meta_tile.tile_patterns and the grid tile size (argument order included)')
+    if not qs:
+        # everything was cached: the tiles are LOADED from the cache and returned
+        ok = len(ld) == 1 and isinstance(ld[0].args[-1] if not ld[0].kwargs.get('tiles') else None, VSeq) and result is ld[0].args[-1]
+        g2 = z3.BoolVal(bool(ok))
+        if ok:
+            tl = ld[0].args[-1]
+            g2 = z3.And(g2, tl.length() == h['tile_patterns'].length())
+        yield ('cached_meta_tile_is_loaded', g2,
+               'when the re-check finds every tile cached, cache.load_tiles([Tile(c) for c in meta_tile.tiles]) is called and '
+               'exactly that list is returned (one entry per pattern entry)')
+
+
+_cm = __import__('pyvc.api', fromlist=['REG']).REG.contracts[C + 'TileCreator._create_meta_tile']
+_cm['trace'] = list(_cm['trace']) + [_meta_request_and_result]
+
+
+def _single_request_and_result(ex, st, post, result):
+    import z3
+    from pyvc.values import eq, VSeq
+    tile = post.env['tile']
+    self_h = st.heap[post.env['self'].ref]
+    grid = st.heap[self_h['grid'].ref]
+    mq = [e for i, e in T.evs(st, 'MapQuery')]
+    tb = [e for i, e in T.evs(st, 'tile_bbox', 'TileGrid.tile_bbox')]
+    qs = [e for i, e in T.evs(st, '_query_sources')]
+    ld = [e for i, e in T.evs(st, 'load_tile')]
+    ok = len(mq) == 1 and len(tb) == 1 and mq[0].args[0] is tb[0].result
+    goal = z3.BoolVal(bool(ok))
+    if ok:
+        goal = z3.And(goal, eq(tb[0].args[-1], ex.opaque_field_at(st, tb[0], tile, 'coord')),
+                      eq(mq[0].args[1], grid['tile_size']), eq(mq[0].args[2], grid['srs']))
+    for e in qs:
+        goal = z3.And(goal, z3.BoolVal(bool(mq) and e.args[-1] is mq[0].result))
+    yield ('upstream_query_is_the_tile', goal,
+           'the upstream query is MapQuery(grid.tile_bbox(tile.coord), grid.tile_size, grid.srs, ..) - the rectangle of the requested address')
+    if not qs:
+        ok2 = len(ld) == 1 and ld[0].args[-1] is tile and isinstance(result, VSeq) and result.concrete and len(result.items) == 1 \
+            and result.items[0] is tile
+        yield ('cached_tile_is_loaded', z3.BoolVal(bool(ok2)),
+               'a tile found cached by the re-check is loaded from the cache (cache.load_tile(tile)) and returned as [tile]')
+
+
+_cs = __import__('pyvc.api', fromlist=['REG']).REG.contracts[C + 'TileCreator._create_single_tile']
+_cs['trace'] = list(_cs['trace']) + [_single_request_and_result]
+
+
+def recheck_decides(fetch_event):
+    """the upstream is asked exactly when the re-check under the lock found at least one tile of the meta tile NOT cached; if all
+    are cached nothing is fetched (added after the mutation audit: the condition itself, not only its position)"""
+    def clause(ex, st, post, result):
+        import z3
+        checks = [e for i, e in T.evs(st, 'is_cached') if e.quant is not None]
+        fetches = T.evs(st, fetch_event)
+        if not checks:
+            yield ('recheck_made', z3.BoolVal(False), 'the cache re-check of all tiles of the meta tile is made')
+            return
+        e = checks[-1]
+        gi, n, keep = e.quant
+        all_cached = z3.ForAll([gi], z3.Implies(z3.And(gi >= 0, gi < n, keep), ex.truth(st, e.result)))
+        # ... over ALL in-grid tiles of THIS meta tile: one test per pattern entry whose tile is not None
+        mt_h = st.heap[post.env['meta_tile'].ref]
+        targ = e.args[0]
+        rng = z3.BoolVal(hasattr(targ, 'isnone'))
+        if hasattr(targ, 'isnone'):
+            rng = z3.And(n == mt_h['tile_patterns'].length(),
+                         z3.ForAll([gi], z3.Implies(z3.And(gi >= 0, gi < n), keep == z3.Not(targ.isnone))))
+        yield ('recheck_covers_every_tile_of_the_meta_tile', rng,
+               'the re-check tests every tile of meta_tile.tiles that lies in the grid (t is not None), no other set')
+        yield ('fetch_iff_something_uncached', (z3.Not(all_cached) if fetches else all_cached),
+               'fetch path <=> not all(is_cached(t) for t in meta_tile.tiles if t is not None); cached path <=> all cached')
+    return clause
+
+
+_cm['trace'] = list(_cm['trace']) + [recheck_decides('_query_sources')]
